@@ -61,8 +61,42 @@ def file_values(tier):
     return out
 
 
+def run_modebits(spec, acc):
+    """Every single-bit flip of a 16-bit mode (type, set-id, sticky and permission bits) of one
+    input and of one output gives another digest; also every pair of the 2^k modes over the
+    special bits."""
+    from stepup.core.hash import FileHash, StepHash
+
+    base = StepHash.from_inp("s", {}, {}, explained=False)
+    specials = [0o4000, 0o2000, 0o1000, 0o100, 0o10, 0o1, 0o040000, 0o020000]
+    modes = set()
+    for m0 in (0o100644, 0o100755, 0o100600):
+        modes.add(m0)
+        for bit in range(16):
+            modes.add(m0 ^ (1 << bit))
+        for r in range(1, len(specials) + 1):
+            for combo in itertools.combinations(specials, r):
+                m = m0
+                for b in combo:
+                    m ^= b
+                modes.add(m)
+    seen_inp, seen_out = {}, {}
+    for m in sorted(modes):
+        fh = FileHash(D1, m, 1.0, 3, 1)
+        di = StepHash.from_inp("s", {"a": fh}, {}, explained=False).inp_digest
+        do = base.with_out_hashes({"a": fh}).out_digest
+        acc.evaluations += 2
+        acc.nontrivial.add(h8(["mode", m]))
+        for seen, dg, what in ((seen_inp, di, "input"), (seen_out, do, "output")):
+            prev = seen.setdefault(dg, m)
+            if prev != m:
+                acc.violation(f"C13|mode-collision|{what}|{oct(prev ^ m)}",
+                              {"why": f"two {what} modes that differ share a digest", "a": oct(prev), "b": oct(m),
+                               "differing_bits": oct(prev ^ m)}, None)
+
+
 def jobs(tier, seed):
-    out = [{"part": "files", "tier": tier}, {"part": "json", "tier": tier}]
+    out = [{"part": "files", "tier": tier}, {"part": "json", "tier": tier}, {"part": "modebits", "tier": tier}]
     fv = len(file_values(tier))
     # step configurations, split by (label, shell) and by slices of the input maps
     for label in LABELS:
@@ -272,6 +306,8 @@ def run_job(spec):
         run_json(spec, acc)
     elif spec["part"] == "files":
         run_files(spec, acc)
+    elif spec["part"] == "modebits":
+        run_modebits(spec, acc)
     if seen:
         # one-ingredient neighbours are the non-trivial pairs: count configurations
         acc.nontrivial |= {h8(k) for k in list(seen)[:20000]}
